@@ -24,6 +24,13 @@ def main():
         for d in diffs:
             r = sh(f"git -C {wt} apply {d}")
             if r.returncode != 0:
+                sh(f"git -C {wt} reset -q --hard && git -C {wt} clean -fdq")
+                r = sh(f"git -C {wt} apply --3way {d}")
+                if r.returncode != 0:
+                    sh(f"git -C {wt} reset -q --hard && git -C {wt} clean -fdq")
+                else:
+                    sh(f"git -C {wt} reset -q")
+            if r.returncode != 0:
                 print(d, "PATCH DOES NOT APPLY", r.stdout[-200:].replace("\n", " "))
                 results[d] = {"error": "does not apply"}
                 continue
